@@ -32,6 +32,7 @@ func init() {
 			{ID: "C08-R7", Title: "conversions return fresh objects or immutable singletons", Floor: 20, Run: c08r7},
 			{ID: "C08-R8", Title: "converters keep no scratch state between conversions (shared with C09-R7)", Floor: 5, Run: cachedObjectsImmutable},
 			{ID: "C08-R9", Title: "the hand-back helper converts unless assignable or inconvertible", Floor: 1, Run: conversionHelperConverts},
+			{ID: "C08-R10", Title: "integers handed back to Go do not pass through float64", Floor: 3, Run: intNotThroughFloat},
 		},
 	})
 }
